@@ -674,6 +674,14 @@ class Interp(Exec):
                     return self.load(st, VRef(obj.root, obj.path + (("k", idx),)))
                 # defaultdict: insert on miss
                 ref = VRef(obj.root, obj.path + (("k", idx),))
+                if h.default == "int":
+                    # reading a missing key of a defaultdict(int) inserts a zero entry; that insertion is
+                    # not modelled (it is unobservable through sums; len()/iteration would see it)
+                    note = "defaultdict(int) zero-insertion on read is not modelled"
+                    if note not in self.ctx.notes:
+                        self.ctx.notes.append(note)
+                    cur = subst(h.val, [(h.binder, kt)])
+                    return self.v_ite(indom, cur, VInt(0))
                 if not z3.is_true(z3.simplify(indom)) and not self.implied(st, indom):
                     cur = self.v_ite(indom, subst(h.val, [(h.binder, kt)]), self.default_h(h))
                     self.write(st, ref, cur if not isinstance(cur, H) else self.alloc(st, cur))
